@@ -304,7 +304,7 @@ Qed.
 
 Lemma invA_step cfg : no_escape cfg -> forall s l s', invA s -> step cfg s l = Some s' -> invA s'.
 Proof.
-  intros [Hne1 Hne2] s l s' I H. destruct l as [t k|t|t x j a|t x j|src x|t n|t o|t|t res|t| |].
+  intros [Hne1 Hne2] s l s' I H. destruct l as [t k|t|t x j a|t x j|src x|t n|t o|t|t res|t| | |t x|t x].
   - (* LCreate *)
     cbn [step] in H. destruct (phase_of s t) eqn:Ep; try discriminate. inversion H; subst; clear H.
     destruct I as [It Inm Iq]. constructor.
@@ -388,6 +388,29 @@ Proof.
   - (* LReaperWake *)
     cbn [step] in H. destruct (st_rbusy s); [|discriminate]. destruct (is_done s t); [|discriminate].
     inversion H; subst. apply invA_rbusy; assumption.
+  - (* LPropCancel *)
+    cbn [step] in H. destruct (tr_phase (st_task s t)) eqn:Ept; try discriminate.
+    destruct (tr_creq (st_task s t) && negb (t =? x)%N); [|discriminate].
+    destruct (tr_phase (st_task s x)) as [| | |c n i b|] eqn:Ep.
+    + inversion H; subst; assumption.
+    + destruct (tr_kind (st_task s x)); try (inversion H; subst; assumption).
+      destruct (st_cb s x) eqn:Ecb; inversion H; subst; clear H; [assumption|].
+      destruct I as [It Inm Iq]. constructor.
+      * intros t0. destruct (N.eq_dec t0 x) as [->|Hne].
+        -- specialize (It x). unfold tinv, phase_of, clean4 in *. cbn. rewrite upd_same. cbn. rewrite Ep in It. tauto.
+        -- other It t0.
+      * eapply names_frame; [| |exact Inm]; reflexivity.
+      * eapply rq_frame; [| |exact Iq]; [intros y Hy; exact Hy|].
+        intros y Hy. unfold phase_of in *. cbn. destruct (N.eq_dec y x) as [->|Hne];
+          [rewrite upd_same; cbn; split; discriminate|rewrite upd_other by assumption; exact Hy].
+    + inversion H; subst; clear H. apply invA_set_task_keep; [assumption|]. unfold phase_of. cbn. rewrite !Ep. exact Logic.I.
+    + inversion H; subst; clear H. apply invA_set_task_keep; [assumption|]. unfold phase_of. cbn. rewrite !Ep. auto.
+    + inversion H; subst; assumption.
+  - (* LCallKilled *)
+    cbn [step] in H. destruct (running s t && d_call_cancel_kills cfg) eqn:Er; [|discriminate].
+    apply andb_true_iff in Er. destruct Er as [Er _].
+    destruct (phase_of s x); try discriminate. destruct (tr_final (st_task s x)) as [[| | |]|]; try discriminate.
+    inversion H; subst. apply invA_end_body; [assumption|apply running_body; assumption].
 Qed.
 
 Lemma invA_run cfg : no_escape cfg -> forall ls s, run cfg ls = Some s -> invA s.
@@ -403,7 +426,7 @@ Proof.
   intros n Hn. apply Inm in Hn. destruct Hn as (l & El & _). destruct It as (_ & _ & _ & Ht). congruence.
 Qed.
 
-Example no_escape_conformant : no_escape no_dev /\ no_escape (mkDev true true false false).
+Example no_escape_conformant : no_escape no_dev /\ no_escape (mkDev true true false false true).
 Proof. repeat split. Qed.
 
 (* ---------- how one step changes the task records ---------- *)
@@ -413,10 +436,11 @@ Lemma step_delta cfg s l s' : step cfg s l = Some s' -> forall x,
   st_task s' x = st_task s x
   \/ (owner l = Some x /\ phase_of s x <> PDone /\ (tr_ncancel (st_task s' x) = tr_ncancel (st_task s x) \/ ((exists k, l = LCreate x k) /\ tr_ncancel (st_task s' x) = 0%nat)))
   \/ (l = LReaper /\ hd_error (st_rq s) = Some x /\ st_rbusy s = None /\ phase_of s x <> PDone
-      /\ tr_ncancel (st_task s' x) = S (tr_ncancel (st_task s x)) /\ (st_rbusy s' = Some x \/ phase_of s' x = PDone)).
+      /\ tr_ncancel (st_task s' x) = S (tr_ncancel (st_task s x)) /\ (st_rbusy s' = Some x \/ phase_of s' x = PDone))
+  \/ ((exists t, l = LPropCancel t x) /\ phase_of s x <> PDone /\ tr_ncancel (st_task s' x) = tr_ncancel (st_task s x)).
 Proof.
   intros H x.
-  destruct l as [t k|t|t y j a|t y j|src y|t n|t o|t|t res|t| |]; cbn [step owner] in *.
+  destruct l as [t k|t|t y j a|t y j|src y|t n|t o|t|t res|t| | |t y|t y]; cbn [step owner] in *.
   - destruct (phase_of s t) eqn:Ep; try discriminate. inversion H; subst; clear H.
     destruct (N.eq_dec x t) as [->|Hne].
     + right; left. rewrite Ep. repeat split; try discriminate. right. split; [eauto|]. destruct k; cbn; rewrite upd_same; reflexivity.
@@ -493,9 +517,32 @@ Proof.
     cbn [st_task set_rq] in H.
     destruct (N.eq_dec x y) as [->|Hne].
     + destruct (tr_phase (st_task s y)) eqn:Ep; inversion H; subst; clear H; try (left; reflexivity);
-        right; right; unfold phase_of; cbn; rewrite Ep, upd_same; cbn; repeat split; try discriminate; auto.
+        right; right; left; unfold phase_of; cbn; rewrite Ep, upd_same; cbn; repeat split; try discriminate; auto.
     + left. destruct (tr_phase (st_task s y)); inversion H; subst; cbn; rewrite ?upd_other by assumption; reflexivity.
   - destruct (st_rbusy s); [|discriminate]. destruct (is_done s t); [|discriminate]. inversion H; subst. left; reflexivity.
+  - destruct (tr_phase (st_task s t)) eqn:Ept; try discriminate.
+    destruct (tr_creq (st_task s t) && negb (t =? y)%N); [|discriminate].
+    destruct (N.eq_dec x y) as [->|Hne].
+    + destruct (tr_phase (st_task s y)) as [| | |c n i b|] eqn:Ep; try (inversion H; subst; left; reflexivity).
+      * destruct (tr_kind (st_task s y)); try (inversion H; subst; left; reflexivity).
+        destruct (st_cb s y); inversion H; subst; clear H; [left; reflexivity|].
+        right; right; right. unfold phase_of. rewrite Ep. cbn. rewrite upd_same. cbn. repeat split; eauto; discriminate.
+      * inversion H; subst; clear H. right; right; right. unfold phase_of. rewrite Ep. cbn. rewrite upd_same. cbn.
+        repeat split; eauto; discriminate.
+      * inversion H; subst; clear H. right; right; right. unfold phase_of. rewrite Ep. cbn. rewrite upd_same. cbn.
+        repeat split; eauto; discriminate.
+    + left. destruct (tr_phase (st_task s y)); try (inversion H; subst; reflexivity).
+      * destruct (tr_kind (st_task s y)); try (inversion H; subst; reflexivity).
+        destruct (st_cb s y); inversion H; subst; cbn; rewrite ?upd_other by assumption; reflexivity.
+      * inversion H; subst; cbn; rewrite upd_other by assumption; reflexivity.
+      * inversion H; subst; cbn; rewrite upd_other by assumption; reflexivity.
+  - destruct (running s t && d_call_cancel_kills cfg) eqn:Er; [|discriminate].
+    apply andb_true_iff in Er. destruct Er as [Er _]. apply running_body in Er.
+    destruct (phase_of s y); try discriminate. destruct (tr_final (st_task s y)) as [[| | |]|]; try discriminate.
+    inversion H; subst; clear H.
+    destruct (N.eq_dec x t) as [->|Hne]; [right; left|left]; unfold end_body; cbn.
+    + rewrite Er, upd_same. repeat split; try discriminate. left; reflexivity.
+    + rewrite upd_other by assumption; reflexivity.
 Qed.
 
 Lemma step_rbusy cfg s l s' : step cfg s l = Some s' ->
@@ -504,7 +551,7 @@ Lemma step_rbusy cfg s l s' : step cfg s l = Some s' ->
   \/ (l = LReaperWake /\ exists x, st_rbusy s = Some x /\ phase_of s x = PDone /\ st_rbusy s' = None).
 Proof.
   intros H.
-  destruct l as [t k|t|t y j a|t y j|src y|t n|t o|t|t res|t| |]; cbn [step] in H.
+  destruct l as [t k|t|t y j a|t y j|src y|t n|t o|t|t res|t| | |t y|t y]; cbn [step] in H.
   - destruct (phase_of s t); try discriminate. inversion H; subst. left. destruct k; reflexivity.
   - destruct (tr_phase (st_task s t)); try discriminate. inversion H; subst. left.
     destruct (tr_kind (st_task s t)); [|destruct (d_service_no_cbrec cfg)|]; cbn;
@@ -530,6 +577,12 @@ Proof.
   - destruct (st_rbusy s) as [x|] eqn:Eb; [|discriminate]. destruct (is_done s x) eqn:Ed; [|discriminate].
     inversion H; subst. right; right. split; [reflexivity|]. exists x. repeat split.
     unfold is_done in Ed. destruct (phase_of s x); try discriminate. reflexivity.
+  - destruct (tr_phase (st_task s t)); try discriminate. destruct (tr_creq (st_task s t) && negb (t =? y)%N); [|discriminate].
+    left. destruct (tr_phase (st_task s y)); try (inversion H; subst; reflexivity).
+    destruct (tr_kind (st_task s y)); try (inversion H; subst; reflexivity). destruct (st_cb s y); inversion H; subst; reflexivity.
+  - destruct (running s t && d_call_cancel_kills cfg); [|discriminate].
+    destruct (phase_of s y); try discriminate. destruct (tr_final (st_task s y)) as [[| | |]|]; try discriminate.
+    inversion H; subst. left; reflexivity.
 Qed.
 
 (* ---------- C. the reaper serialises cancellations ---------- *)
@@ -540,7 +593,7 @@ Definition invC (s : state) : Prop :=
 Lemma invC_step cfg s l s' : invC s -> step cfg s l = Some s' -> invC s'.
 Proof.
   intros I H t. destruct (I t) as [I1 I2].
-  destruct (step_delta cfg s l s' H t) as [Hs|[(Ho & Hnd & Hn)|(Hl & Hhd & Hb & Hnd & Hn & Hr)]].
+  destruct (step_delta cfg s l s' H t) as [Hs|[(Ho & Hnd & Hn)|[(Hl & Hhd & Hb & Hnd & Hn & Hr)|((t' & Hl) & Hnd & Hn)]]].
   - unfold phase_of. rewrite Hs. split; [exact I1|]. intros Hge. destruct (I2 Hge) as [Hb|Hd]; [|right; exact Hd].
     destruct (step_rbusy cfg s l s' H) as [E|[[_ E]|[_ (x & E & Hx & _)]]].
     + left. congruence.
@@ -553,6 +606,8 @@ Proof.
     { destruct (tr_ncancel (st_task s t)) eqn:E; [reflexivity|]. exfalso.
       destruct I2 as [Hb'|Hd]; [lia|congruence|contradiction]. }
     split; [lia|]. intros _. exact Hr.
+  - rewrite Hn. split; [exact I1|]. intros Hge. destruct (I2 Hge) as [Hb|Hd]; [|contradiction].
+    destruct (step_rbusy cfg s l s' H) as [E|[[El _]|[El _]]]; [left; congruence| |]; subst l; discriminate.
 Qed.
 
 Lemma invC_init : invC init_state.
@@ -568,11 +623,11 @@ Definition enabled (cfg : deviations) (s : state) (l : label) : Prop := step cfg
 
 (* whether a step of run r can be taken depends on r's own record only *)
 Lemma enabled_local cfg s1 s2 l r :
-  d_live_iter cfg = false -> owner l = Some r -> st_task s1 r = st_task s2 r ->
+  d_live_iter cfg = false -> d_call_cancel_kills cfg = false -> owner l = Some r -> st_task s1 r = st_task s2 r ->
   (enabled cfg s1 l <-> enabled cfg s2 l).
 Proof.
-  intros Hl Ho He. unfold enabled.
-  destruct l as [t k|t|t y j a|t y j|src y|t n|t o|t|t res|t| |]; cbn [owner] in Ho; try discriminate;
+  intros Hl Hk Ho He. unfold enabled.
+  destruct l as [t k|t|t y j a|t y j|src y|t n|t o|t|t res|t| | |t y|t y]; cbn [owner] in Ho; try discriminate;
     try (inversion Ho; subst t); cbn [step]; unfold running, phase_of, iter_table; rewrite ?Hl, ?He.
   - destruct (tr_phase (st_task s2 r)); split; intros; congruence.
   - destruct (tr_phase (st_task s2 r)); split; intros; congruence.
@@ -595,32 +650,38 @@ Proof.
     destruct brk; [split; intros; discriminate|].
     destruct (negb (length (tbl_live (tr_snap (st_task s2 r))) =? n0)%nat); [split; intros; discriminate|].
     destruct (tbl_next cur (tr_snap (st_task s2 r))); split; intros; congruence.
+  - rewrite Hk, !andb_false_r. tauto.
 Qed.
 
 (* a step of run r leaves the record (phase, pending cancellation, outcome) of every other run alone *)
 Lemma step_frame cfg s l s' r r' :
   step cfg s l = Some s' -> owner l = Some r -> r' <> r -> st_task s' r' = st_task s r'.
 Proof.
-  intros H Ho Hne. destruct (step_delta cfg s l s' H r') as [E|[(Ho' & _)|(Hl & _)]]; [exact E| |].
+  intros H Ho Hne. destruct (step_delta cfg s l s' H r') as [E|[(Ho' & _)|[(Hl & _)|((t' & Hl) & _)]]]; [exact E| | |].
   - rewrite Ho in Ho'. inversion Ho'. congruence.
+  - subst l. discriminate.
   - subst l. discriminate.
 Qed.
 
 (* the only step that interferes with another run is the reaper executing a queued cancel request ... *)
 Lemma only_reaper_cancels cfg s l s' x :
   step cfg s l = Some s' -> owner l <> Some x -> st_task s' x <> st_task s x ->
-  l = LReaper /\ hd_error (st_rq s) = Some x.
+  (l = LReaper /\ hd_error (st_rq s) = Some x) \/ (exists t, l = LPropCancel t x /\ tr_creq (st_task s t) = true).
 Proof.
-  intros H Ho Hc. destruct (step_delta cfg s l s' H x) as [E|[(Ho' & _)|(Hl & Hh & _)]]; [contradiction|contradiction|auto].
+  intros H Ho Hc. destruct (step_delta cfg s l s' H x) as [E|[(Ho' & _)|[(Hl & Hh & _)|((t' & Hl) & _)]]];
+    [contradiction|contradiction|auto|].
+  right. exists t'. split; [exact Hl|]. subst l. cbn [step] in H.
+  destruct (tr_phase (st_task s t')); try discriminate. destruct (tr_creq (st_task s t')); [reflexivity|discriminate].
 Qed.
 
-(* ... and a task enters the queue only through an explicit task.cancel / task.unique naming it *)
+(* (LPropCancel: asyncio hands the cancellation of a run that is blocked in service.call on to the service run it awaits)
+   ... and a task enters the queue only through an explicit task.cancel / task.unique naming it *)
 Lemma rq_only_by_request cfg s l s' x :
   step cfg s l = Some s' -> In x (st_rq s') -> In x (st_rq s)
   \/ (exists src, l = LCancel src x) \/ (exists t n, l = LClaim t n /\ st_n2t s n = Some x /\ x <> t).
 Proof.
   intros H Hin.
-  destruct l as [t k|t|t y j a|t y j|src y|t n|t o|t|t res|t| |]; cbn [step] in H.
+  destruct l as [t k|t|t y j a|t y j|src y|t n|t o|t|t res|t| | |t y|t y]; cbn [step] in H.
   - destruct (phase_of s t); try discriminate. inversion H; subst. left. destruct k; exact Hin.
   - destruct (tr_phase (st_task s t)); try discriminate. inversion H; subst. left.
     revert Hin. destruct (tr_kind (st_task s t)); [|destruct (d_service_no_cbrec cfg)|]; cbn;
@@ -654,6 +715,12 @@ Proof.
   - destruct (st_rbusy s); [discriminate|]. destruct (st_rq s) as [|y q]; [discriminate|]. cbn [st_task set_rq] in H.
     left. right. revert Hin. destruct (tr_phase (st_task s y)); inversion H; subst; cbn; auto.
   - destruct (st_rbusy s) as [y|]; [|discriminate]. destruct (is_done s y); [|discriminate]. inversion H; subst. left; exact Hin.
+  - destruct (tr_phase (st_task s t)); try discriminate. destruct (tr_creq (st_task s t) && negb (t =? y)%N); [|discriminate].
+    left. revert Hin. destruct (tr_phase (st_task s y)); try (inversion H; subst; auto).
+    destruct (tr_kind (st_task s y)); try (inversion H; subst; auto). destruct (st_cb s y); inversion H; subst; auto.
+  - destruct (running s t && d_call_cancel_kills cfg); [|discriminate].
+    destruct (phase_of s y); try discriminate. destruct (tr_final (st_task s y)) as [[| | |]|]; try discriminate.
+    inversion H; subst. left; exact Hin.
 Qed.
 
 (* ---------- B. done-callbacks ---------- *)
@@ -873,7 +940,7 @@ Proof. intros I. eapply invB_frame; [| | |exact I]; reflexivity. Qed.
 
 Lemma invB_step cfg : conformant_loop cfg -> forall s l s', invA s -> invB s -> step cfg s l = Some s' -> invB s'.
 Proof.
-  intros (Hb & Hne1 & Hne2) s l s' IA I H. destruct l as [t k|t|t x j a|t x j|src x|t n|t o|t|t res|t| |].
+  intros (Hb & Hne1 & Hne2) s l s' IA I H. destruct l as [t k|t|t x j a|t x j|src x|t n|t o|t|t res|t| | |t x|t x].
   - (* LCreate *)
     cbn [step] in H. destruct (phase_of s t) eqn:Ep; try discriminate. inversion H; subst; clear H.
     assert (I1 : invB (set_task s t (mkT k PCreated false 0 None None []))).
@@ -985,6 +1052,30 @@ Proof.
   - (* LReaperWake *)
     cbn [step] in H. destruct (st_rbusy s); [|discriminate]. destruct (is_done s t); [|discriminate].
     inversion H; subst. eapply invB_frame; [| | |exact I]; reflexivity.
+  - (* LPropCancel *)
+    cbn [step] in H. destruct (tr_phase (st_task s t)) eqn:Ept; try discriminate.
+    destruct (tr_creq (st_task s t) && negb (t =? x)%N); [|discriminate].
+    destruct (tr_phase (st_task s x)) as [| | |c n i b|] eqn:Ep.
+    + inversion H; subst; exact I.
+    + destruct (tr_kind (st_task s x)); try (inversion H; subst; exact I).
+      destruct (st_cb s x); inversion H; subst; clear H; [exact I|].
+      destruct I as [B1 B2 B3]. constructor.
+      * intros t0. destruct (N.eq_dec t0 x) as [->|Hne].
+        -- specialize (B1 x). unfold binv, phase_of, calls in *. cbn. rewrite upd_same. cbn. rewrite Ep in B1.
+           destruct B1 as [B1 B1']. rewrite B1, B1'. reflexivity.
+        -- apply (binv_frame s _ t0); [cbn; rewrite upd_other by assumption; reflexivity|reflexivity|apply B1].
+      * exact B2.
+      * intros t0. cbn. destruct (N.eq_dec t0 x) as [->|Hne]; [rewrite upd_same; cbn|rewrite upd_other by assumption]; apply B3.
+    + inversion H; subst; clear H. apply invB_set_task_same; [exact I|reflexivity|]. unfold phase_of. cbn. rewrite !Ep. exact Logic.I.
+    + assert (Hbf : b = false).
+      { destruct I as [B1 _ _]. specialize (B1 x). unfold binv, phase_of in B1. rewrite Ep in B1. tauto. }
+      subst b. inversion H; subst; clear H. apply invB_set_task_same; [exact I|reflexivity|]. unfold phase_of. cbn. rewrite !Ep. reflexivity.
+    + inversion H; subst; exact I.
+  - (* LCallKilled *)
+    cbn [step] in H. destruct (running s t && d_call_cancel_kills cfg) eqn:Er; [|discriminate].
+    apply andb_true_iff in Er. destruct Er as [Er _].
+    destruct (phase_of s x); try discriminate. destruct (tr_final (st_task s x)) as [[| | |]|]; try discriminate.
+    inversion H; subst. apply invB_end_body; [apply running_body; assumption|exact I].
 Qed.
 
 Lemma invAB_run cfg : conformant_loop cfg -> forall ls s, run cfg ls = Some s -> invA s /\ invB s.
@@ -1071,7 +1162,7 @@ Ltac rfin R t0 x :=
 Lemma rinv_step cfg : d_service_no_cbrec cfg = false ->
   forall s l s', (forall t, rinv s t) -> step cfg s l = Some s' -> forall t, rinv s' t.
 Proof.
-  intros Hd s l s' R H t0. destruct l as [t k|t|t x j a|t x j|src x|t n|t o|t|t res|t| |]; cbn [step] in H.
+  intros Hd s l s' R H t0. destruct l as [t k|t|t x j a|t x j|src x|t n|t o|t|t res|t| | |t x|t x]; cbn [step] in H.
   - destruct (phase_of s t) eqn:Ep; try discriminate. inversion H; subst; clear H.
     destruct k; rfin R t0 t.
   - destruct (tr_phase (st_task s t)) eqn:Ep; try discriminate. inversion H; subst; clear H.
@@ -1103,6 +1194,16 @@ Proof.
   - destruct (st_rbusy s); [discriminate|]. destruct (st_rq s) as [|x q]; [discriminate|]. cbn [st_task set_rq] in H.
     destruct (tr_phase (st_task s x)) eqn:Ep; inversion H; subst; clear H; rfin R t0 x.
   - destruct (st_rbusy s) as [x|]; [|discriminate]. destruct (is_done s x); [|discriminate]. inversion H; subst. exact (R t0).
+  - destruct (tr_phase (st_task s t)) eqn:Ept; try discriminate. destruct (tr_creq (st_task s t) && negb (t =? x)%N); [|discriminate].
+    destruct (tr_phase (st_task s x)) eqn:Ep; try (inversion H; subst; exact (R t0)).
+    + destruct (tr_kind (st_task s x)) eqn:Ek; try (inversion H; subst; exact (R t0)).
+      destruct (st_cb s x) eqn:Ec; inversion H; subst; clear H; [exact (R t0)|]. rfin R t0 x.
+    + inversion H; subst; clear H. rfin R t0 x.
+    + inversion H; subst; clear H. rfin R t0 x.
+  - destruct (running s t && d_call_cancel_kills cfg) eqn:Er; [|discriminate].
+    apply andb_true_iff in Er. destruct Er as [Er _]. apply running_body in Er.
+    destruct (phase_of s x); try discriminate. destruct (tr_final (st_task s x)) as [[| | |]|]; try discriminate.
+    inversion H; subst; clear H. rfin R t0 t.
 Qed.
 
 Lemma rinv_run cfg : d_service_no_cbrec cfg = false -> forall ls s, run cfg ls = Some s -> forall t, rinv s t.
@@ -1185,10 +1286,11 @@ Qed.
 Local Open Scope N_scope.
 
 (* ---------- the statements are false of the code as it is: witnesses, checked by computation ---------- *)
-Definition only_d22 := mkDev true false false false.
-Definition only_d20 := mkDev false true false false.
-Definition only_d140 := mkDev false false true false.
-Definition only_d141 := mkDev false false false true.
+Definition only_d22 := mkDev true false false false false.
+Definition only_d20 := mkDev false true false false false.
+Definition only_d140 := mkDev false false true false false.
+Definition only_d141 := mkDev false false false true false.
+Definition only_d142 := mkDev false false false false true.
 
 (* D22: two callbacks, the first raises: the second is never called *)
 Definition wit_d22 : list label :=
@@ -1226,6 +1328,17 @@ Lemma refuted_D141 :
             st_ours s 0 = true /\ st_cb s 0 <> None /\ st_ctx s 0 = true /\
             calls s 0 = [(0, 5)]%N /\ tr_final (st_task s 0) = Some OEscape.
 Proof. eexists. split; [vm_compute; reflexivity|]. vm_compute. repeat split; try discriminate. Qed.
+
+(* D142: task 0 is blocked in service.call on service run 1; task 1 is cancelled: task 0 ends cancelled although no
+   cancellation was ever delivered to it; with the switch off that step does not exist *)
+Definition wit_d142 : list label :=
+  [LCreate 0 KTrig; LStart 0; LCreate 1 KSvc; LStart 1; LCancel None 1; LReaper; LEnd 1 OCancel; LExit 1; LReaperWake; LCallKilled 0 1; LExit 0].
+Lemma refuted_D142 :
+  exists s, run only_d142 wit_d142 = Some s /\ phase_of s 0 = PDone /\ tr_final (st_task s 0) = Some OCancel /\
+            tr_ncancel (st_task s 0) = 0%nat.
+Proof. eexists. split; [vm_compute; reflexivity|]. vm_compute. auto. Qed.
+Lemma callee_cancel_spares_caller cfg s t x : d_call_cancel_kills cfg = false -> step cfg s (LCallKilled t x) = None.
+Proof. intros H. cbn [step]. rewrite H, andb_false_r. reflexivity. Qed.
 
 (* independence fails for the live-dict loop: whether task 0 can take its next loop step normally depends on task 1 *)
 Lemma independent_needs_D141_off :
